@@ -138,6 +138,21 @@ def check_equiv(A, B, timeout_ms=10000, kind="equiv"):
         E.needed_depth(B)
     except E.Unsupported as e:
         return Result("unsupported", str(e))
+    malformed = []
+    for which, blk in (("first", A), ("second", B)):
+        for n_, v_ in blk:
+            try:
+                if n_ == "PUSH":
+                    E.push_value(v_)
+                elif (n_.startswith("DUP") and n_[3:].isdigit() and not 1 <= int(n_[3:]) <= 16) or \
+                        (n_.startswith("SWAP") and n_[4:].isdigit() and not 1 <= int(n_[4:]) <= 16):
+                    raise E.Malformed(n_)
+            except E.Malformed as e:
+                malformed.append((which, str(e)))
+    if malformed:
+        if all(w == "second" for w, _ in malformed):
+            return Result("different", "second block is not well formed: " + malformed[0][1], {}, "malformed: " + malformed[0][1])
+        return Result("unsupported", "malformed input: " + malformed[0][1])
     if [tuple(i) for i in A] == [tuple(i) for i in B]:
         return Result("equal", "identical", stage="syntactic")
     for abstract in (True, False):
